@@ -18,7 +18,7 @@ RULE = ("exhaustive: every acyclic history on <=4 revisions (none/down_revision/
         "reversed load order, every antichain of revisions as current rows, targets {each id, heads, id+1, +1, +2}; "
         "seeded random: histories of 5-10 revisions (merges, depends_on, redundant parents, branch labels) with rows reached by "
         "random upgrade/downgrade/stamp commands of the real planner, targets incl. head, label@head, partial ids, rev+N. "
-        "thorough adds all load orders for <=4 and 40x the random budget. non-trivial = non-empty plan; distinct by encoded case")
+        "plus end-to-end runs (real script files, env.py, command.upgrade on SQLite: the plan is the order in which upgrade() functions actually ran; 40 quick / 1500 thorough). thorough adds all load orders for <=4 and 40x the random budget. non-trivial = non-empty plan; distinct by encoded case")
 EXHAUSTIVE = {"quick": True, "thorough": True}
 CASE_TIMEOUT = 10
 DESIGN_REF = "DESIGN.md section 5 C01, Appendix A"
@@ -63,6 +63,60 @@ def generate(tier, seed):
         g = gr.rand_dag(rnd, rnd.randint(5, 10), pdep=rnd.choice([0.2, 0.4]), pmerge=rnd.choice([0.2, 0.5]),
                         plabel=rnd.choice([0, 0.15]))
         yield {"g": g, "rand_states": rnd.randint(0, 10 ** 9), "rich": True}
+    for k in range(40 if tier == "quick" else 1500):
+        g = gr.rand_dag(rnd, rnd.randint(3, 8), pdep=rnd.choice([0.2, 0.4]), pmerge=rnd.choice([0.2, 0.5]), plabel=0.1)
+        yield {"g": g, "e2e": rnd.randint(0, 10 ** 9)}
+
+
+def _e2e(h):
+    """the whole command: real script files, env.py, command.upgrade on SQLite; the plan is what actually ran"""
+    import os, shutil, tempfile
+    from alembic import command, util
+    from alembic.script import ScriptDirectory
+    g = h["g"]
+    rnd = random.Random(h["e2e"])
+    root = tempfile.mkdtemp(prefix="avc01")
+    try:
+        cfg, log, db = gr.materialize(g, root)
+        names = [r["name"] for r in g]
+        for _ in range(rnd.randint(0, 4)):      # reach a state through the real commands
+            try:
+                kind = rnd.choice(["up", "up", "down", "stamp"])
+                if kind == "up":
+                    command.upgrade(cfg, rnd.choice(names + ["heads"]))
+                elif kind == "down":
+                    command.downgrade(cfg, rnd.choice(names + ["base"]))
+                else:
+                    command.stamp(cfg, rnd.choice(names))
+            except util.CommandError:
+                pass
+        S = gr.db_rows(db)
+        sd = ScriptDirectory.from_config(cfg)
+        m = sd.revision_map
+        # load order of the real directory (os.listdir based) defines the ids
+        order = [k for k in m._revision_map if k in names]
+        g2 = sorted(g, key=lambda r: order.index(r["name"]))
+        ix = gr.index(g2)
+        ts = _targets(g2, m, rich=True)
+        rnd.shuffle(ts)
+        for t in ts:
+            try:
+                tg = [ix[r.revision] for r in m._parse_upgrade_target(current_revisions=tuple(S), target=t, assert_relative_length=True)]
+            except Exception:
+                continue
+            open(log, "w").close()
+            try:
+                command.upgrade(cfg, t)
+            except util.CommandError:
+                continue
+            ran = [l.split()[1] for l in open(log).read().split("\n") if l.startswith("up ")]
+            plan = [ix[x] for x in ran]
+            cin = "(%s, %s, %s)" % (gr.coq_graph(g2, m), cf.nlist(tg), cf.nlist(ix[s] for s in S))
+            return dict(cin=cin, cout="POk %s" % cf.nlist(plan), out={"plan": plan, "targets": tg, "S": S, "t": t, "e2e": True},
+                        nontrivial=bool(plan), shape="e2e-n%d" % len(g))
+        return None
+    finally:
+        shutil.rmtree(root, ignore_errors=True)
 
 
 def search(tier, seed):
@@ -108,6 +162,8 @@ def _one(g, m, sd, S, t):
 
 
 def run_case(h):
+    if "e2e" in h:
+        return _e2e(h)
     g = h["g"]
     m, sd = gr.build(g)
     if "rand_states" in h:
